@@ -207,4 +207,249 @@ def units(tier):
             us.append(Unit("1.sanitized_output[n=%d,dest=%s]" % (n, dk), M, "sanitized_output", dict(n=n, dest_kind=dk), 1800))
     for n in range(1, (4 if tier == "quick" else 5) + 1):
         us.append(Unit("2.link_gate[n=%d]" % n, M, "link_gate", dict(n=n), 1800))
+    for kinds in (["f", "l", "lf", "ld", "llf"] if tier == "quick" else ["f", "l", "d", "lf", "fl", "ld", "dl", "ll", "llf", "lfl", "lld", "dlf"]):
+        us.append(Unit("3.physical_step[%s]" % kinds, M, "physical_step", dict(kinds=kinds), 3000))
     return us
+
+
+# ------------------------------------------------------- 3. physical step on a filesystem model
+NAME_TABLE = ["a", "a/b", "a/b/c.txt", "b", "a/c.txt"]
+TARGET_TABLE = [".", "..", "a", "../..", "b", "/base/outside"]
+JAIL = ("/", "base", "jail")
+
+
+def validate_fs_model():
+    """translator validation: the filesystem model vs the real OS on scripted operation sequences"""
+    import os
+    import random
+    import shutil
+    import tempfile
+
+    from vf.harness import fakefs as F
+    from vf.pysym.engine import Engine
+
+    eng = Engine(["py7zr.helpers"], intmode="int")
+    rnd = random.Random(3)
+    checked = 0
+    for trial in range(40):
+        top = tempfile.mkdtemp(prefix="vf_fsm_")
+        base = os.path.join(top, "p", "q")   # two levels of scratch above the jail: '../..' stays inside `top`
+        os.makedirs(os.path.join(base, "jail"))
+        fs = F.FS()
+        for p in [PurePath_(base), PurePath_(base) / "jail"]:
+            cur = ("/",)
+            for comp in p.parts[1:]:
+                cur = cur + (comp,)
+                fs.nodes.setdefault(cur, ("dir",))
+        names = ["a", "a/b", "b", "a/b/c", "b/x"]
+        for step in range(6):
+            nm = rnd.choice(names)
+            op = rnd.choice(["mkdir", "symlink", "write", "touch"])
+            real = os.path.join(base, "jail", nm)
+            fk = F.FakePath(fs, real, os.path.join(base, "jail"))
+            tgt = rnd.choice([".", "..", "a", "../..", "b"])
+            r_err = f_err = None
+            try:
+                if op == "mkdir":
+                    pathlib_mkdir(real)
+                elif op == "symlink":
+                    os.symlink(tgt, real)
+                elif op == "write":
+                    with open(real, "wb") as fh:
+                        fh.write(b"x")
+                else:
+                    pathlib_touch(real)
+            except OSError as ex:
+                r_err = type(ex).__name__
+            try:
+                if op == "mkdir":
+                    fk.mkdir(eng, parents=True, exist_ok=True)
+                elif op == "symlink":
+                    fk.symlink_to(eng, tgt)
+                elif op == "write":
+                    fk.open(eng, "wb")
+                else:
+                    fk.touch(eng)
+            except Exception as ex:  # noqa
+                f_err = getattr(ex, "name", type(ex).__name__)
+            assert (r_err is None) == (f_err is None), (trial, step, op, nm, tgt, r_err, f_err)
+            checked += 1
+        # compare the trees (kinds and link targets) under base
+        real_tree = {}
+        for root, dirs, files in os.walk(base, followlinks=False):
+            for n_ in dirs + files:
+                p = os.path.join(root, n_)
+                k = "link" if os.path.islink(p) else ("dir" if os.path.isdir(p) else "file")
+                real_tree[tuple(PurePath_(p).parts)] = k
+        for root, dirs, files in os.walk(top, followlinks=False):
+            for n_ in dirs + files:
+                p = os.path.join(root, n_)
+                k = "link" if os.path.islink(p) else ("dir" if os.path.isdir(p) else "file")
+                real_tree[tuple(PurePath_(p).parts)] = k
+        model_tree = {loc: v[0] for loc, v in fs.nodes.items() if len(loc) > len(PurePath_(top).parts)}
+        assert real_tree == model_tree, (trial, sorted(real_tree.items()), sorted(model_tree.items()))
+        shutil.rmtree(top, ignore_errors=True)
+    return checked
+
+
+def PurePath_(p):
+    from pathlib import PurePosixPath
+
+    return PurePosixPath(p)
+
+
+def pathlib_mkdir(p):
+    import pathlib
+
+    pathlib.Path(p).mkdir(parents=True, exist_ok=True)
+
+
+def pathlib_touch(p):
+    import pathlib
+
+    pathlib.Path(p).touch()
+
+
+def physical_step(kinds, fixed_names=None):
+    """kinds: string over 'l' (symlink), 'f' (file), 'd' (directory): an archive of len(kinds) entries whose names and
+    link targets are symbolic indices into small tables; extracted into an empty jail through the real _extract"""
+    import zlib
+
+    from vf.harness import extract as X
+    from vf.harness import fakefs as F
+    from vf.harness import readcases as RC
+    from vf.harness import refwriter as W
+
+    n = len(kinds)
+    r = ObResult(bounds="archive of %d entries of kinds %r; names from %r, link targets from %r (symbolic choice); extraction "
+                        "into the empty directory /base/jail on the filesystem model" % (n, kinds, fixed_names or NAME_TABLE, TARGET_TABLE))
+    r.validated = validate_fs_model()
+    eng = RC.mk_engine(unroll=1)
+    ni = [eng.sym_int("name%d" % i, 3) for i in range(n)]
+    ti = [eng.sym_int("target%d" % i, 3) for i in range(n)]
+    size = eng.sym_int("size", 20)
+    table = fixed_names or NAME_TABLE
+
+    def pick(e, v, tbl):
+        for k in range(len(tbl) - 1):
+            if e.branch(e.compare(ast.Eq(), v, k)):
+                return k
+        return len(tbl) - 1
+
+    def harness(e):
+        fs = F.FS()
+        for loc in [("/", "base"), JAIL]:
+            fs.nodes[loc] = ("dir",)
+        F.install(e, fs, "/base/jail")
+        e.overrides[("py7zr.properties", "get_memory_limit")] = lambda e_: 10 ** 6
+        names, targets, entries = [], [], []
+        for i, k in enumerate(kinds):
+            e.assume(e.compare(ast.Lt(), ni[i], len(table)))
+            nm = table[i] if fixed_names and len(fixed_names) == n and False else table[pick(e, ni[i], table)]
+            names.append(nm)
+            if k == "l":
+                e.assume(e.compare(ast.Lt(), ti[i], len(TARGET_TABLE)))
+                tg = TARGET_TABLE[pick(e, ti[i], TARGET_TABLE)]
+                targets.append(tg)
+                entries.append(dict(kind="l", name=nm, size=len(tg), crc=zlib.crc32(tg.encode()), mtime=None, attributes=W.default_attributes("l")))
+            else:
+                targets.append(None)
+                entries.append(dict(kind=k, name=nm, size=(size if k == "f" else 0), crc=e.sym_int("crc%d" % i, 32), mtime=None,
+                                    attributes=W.default_attributes(k)))
+        if len(set(names)) != len(names):
+            return dict(skip="duplicate names")
+        nd = sum(1 for k in kinds if k in "fl")
+        layout = dict(folders=[nd] if nd else [], ncoders=[1] if nd else [], packsizes=[e.sym_int("pack", 30)] if nd else [],
+                      crc_at="sub", coder_ids=[b"\x00"])
+        z, fp, w = X.setup_read(e, entries, layout, consume="all-at-once")
+
+        def link_text(e_, b):
+            # the decoded text of a link member: identified by the byte range it was decoded from
+            for x in b.items:
+                if isinstance(x, X.Chunk):
+                    for i_, (fi, off, sz) in w.member_range.items():
+                        if entries[i_]["kind"] == "l" and (not hasattr(off, "sort")) and off == x.off:
+                            return targets[i_]
+                    for i_, (fi, off, sz) in w.member_range.items():
+                        if entries[i_]["kind"] == "l" and e_.branch(e_.compare(ast.Eq(), off, x.off)):
+                            return targets[i_]
+            return NotImplemented
+
+        e.decode_hook = link_text
+        dest = F.FakePath(fs, "/base/jail", "/base/jail")
+        try:
+            e.method(z, "extractall", dest)
+            outcome = "completed"
+        except ModelRaise as ex:
+            outcome = "raised " + ex.name
+        return dict(effects=list(fs.effects), names=names, targets=targets, outcome=outcome)
+
+    def post(o):
+        if "skip" in o:
+            return None
+        bad = [(op, loc) for (op, loc) in o["effects"] if loc[:len(JAIL)] != JAIL]
+        o["bad"] = bad
+        return [not bad]
+
+    inputs = {"name%d" % i: v for i, v in enumerate(ni)}
+    inputs.update({"target%d" % i: v for i, v in enumerate(ti) if kinds[i] == "l"})
+    decide(eng, harness, post, inputs, r, max_cex=2,
+           describe=lambda o: o.get("skip") or "%s -> %s" % (list(zip(o["names"], o["targets"])), o["outcome"]))
+
+    def entries_of(w):
+        out = []
+        for i, k in enumerate(kinds):
+            nm = table[min(int(w.get("name%d" % i, 0)), len(table) - 1)]
+            tg = TARGET_TABLE[min(int(w.get("target%d" % i, 0)), len(TARGET_TABLE) - 1)] if k == "l" else None
+            out.append((k, nm, tg))
+        return out
+
+    def sig(w):
+        ents = entries_of(w)
+        nlinks = sum(1 for (k, nm, tg) in ents if k == "l")
+        lexical_ok = all(not (tg or "").startswith("/") for (k, nm, tg) in ents)
+        return {"obligation": "physical_step",
+                "class": "followed_links_created_by_earlier_entries" if nlinks >= 1 and lexical_ok else "other"}
+
+    _cex(r, "physical_step", lambda w: dict(module="vf.props.c03", func="replay_physical", kwargs=dict(entries=entries_of(w))), signature=sig)
+    for c in r.cex:
+        c["witness"] = {"entries": entries_of(c["witness"])}
+    return r
+
+
+def replay_physical(entries):
+    """build the archive with the reference writer (Copy codec), extract into a scratch jail whose parent is scratch too,
+    and look for anything created or changed outside the jail"""
+    import io
+    import os
+    import shutil
+    import tempfile
+    import zlib
+
+    import py7zr
+    from vf.harness import refwriter as W
+
+    base = tempfile.mkdtemp(prefix="vf_c03p_")
+    jail = os.path.join(base, "jail")
+    os.mkdir(jail)
+    ents, datas = [], []
+    for (k, nm, tg) in entries:
+        tg2 = tg.replace("/base/outside", os.path.join(base, "outside")) if tg else tg
+        data = tg2.encode() if k == "l" else (b"payload" if k == "f" else b"")
+        ents.append(dict(kind=k, name=nm, size=len(data), crc=zlib.crc32(data), mtime=None, attributes=W.default_attributes(k)))
+        if k in "fl":
+            datas.append(data)
+    nd = len(datas)
+    layout = dict(folders=[nd] if nd else [], ncoders=[1] if nd else [], packsizes=[sum(map(len, datas))] if nd else [],
+                  crc_at="sub", coder_ids=[b"\x00"])
+    img = W.seal(bytes(W.write_header(ents, layout, concrete=True)), b"".join(datas))
+    before = _snapshot(base, jail)
+    try:
+        py7zr.SevenZipFile(io.BytesIO(img)).extractall(path=jail)
+        outcome = "completed"
+    except Exception as e:  # noqa
+        outcome = "raised %r" % (e,)
+    after = _snapshot(base, jail)
+    shutil.rmtree(base, ignore_errors=True)
+    new = sorted(after - before)
+    return bool(new), "entries %s: %s; created outside the destination: %s" % (entries, outcome, [p.replace(base, "<base>") for p in new])
